@@ -551,7 +551,8 @@ def check_property(prop, tier, only_units=None, keep=False, jobs=None):
     if tier == "quick":
         units = [u for u in units if u.get("tier", "quick") == "quick"]
     if only_units:
-        units = [u for u in units if u["name"] in only_units]
+        # exact names, or a prefix ending in '.' or '*' selecting a family of units
+        units = [u for u in units if u["name"] in only_units or any(o[-1:] in ".*" and u["name"].startswith(o.rstrip("*")) for o in only_units)]
     if not units:
         print("INFRA-ERROR property=%s no units registered" % prop)
         return 2
